@@ -703,7 +703,7 @@ fn wrap_emit(rng: &mut Rng, e: Value) -> Value {
 
 /// one random project; `adversarial` lifts the SafeProject restrictions
 pub fn random_project(rng: &mut Rng, nfiles: usize, adversarial: bool, externs: &[&str]) -> Value {
-    let dirs = ["", "commands/", "models/", "a/b/c/", "target_x/", "x.target/", "legacy.rs/", "commands/", "src/", "src/commands/", "crates/shared/src/"];
+    let dirs = ["", "commands/", "models/", "a/b/c/", "target_x/", "x.target/", "legacy.rs/", "commands/", "src/", "src/commands/", "crates/shared/src/", "dist/", "node_modules/x/", "build/", ".hidden/", "out/", "vendor/", "tests/", "target2/"];
     let mut type_names: Vec<String> = Vec::new();
     let mut items_per_file: Vec<Vec<Value>> = vec![Vec::new(); nfiles];
     let ntypes = 1 + rng.below(3 + nfiles);
@@ -749,6 +749,11 @@ pub fn random_project(rng: &mut Rng, nfiles: usize, adversarial: bool, externs: 
         if rng.chance(1, 3) {
             let rules: &[&str] = if adversarial { &["camelCase", "snake_case", "PascalCase", "UPPERCASE", "kebab-case", "SCREAMING-KEBAB-CASE", "lowercase"] } else { &["camelCase", "snake_case", "PascalCase", "UPPERCASE"] };
             attrs.push(attr(&format!("serde(rename_all = \"{}\")", rng.pick(rules))));
+            if rng.chance(1, 4) {
+                // … written before the derive it belongs to
+                let last = attrs.pop().unwrap();
+                attrs.insert(0, last);
+            }
         }
         let f = rng.below(nfiles);
         if rng.chance(1, 4) {
